@@ -418,6 +418,15 @@ def exec (st : State) (toks : List String) : State × List String :=
       -- isolated: the deps are exactly the isolation heads
       let deps := match st.iso.find? (fun p => p.1 == r) with | some (_, hs) => hs | none => d.localDeps t.actor
       ({ st' with predicted := (r, (seq, t.startOp, deps, t.pending)) :: st'.predicted.filter (fun p => p.1 != r) }, ["ok"])
+  -- `AutoCommit::empty_change`: a change without ops at the replica's heads; `TransactionInner::empty`
+  -- goes through `commit_impl`, so the (actor, seq) claim and the queue purge are those of `crdt.local`
+  | ["crdt.emptycommit", r] =>
+    match st.txs.find? (fun p => p.1 == r), st.iso.find? (fun p => p.1 == r), st.actors.find? (fun p => p.1 == r) with
+    | none, none, some (_, actor) =>
+      let d := getReplica st r
+      let seq := d.seqForActor actor + 1
+      ({ st with predicted := (r, (seq, d.maxOp + 1, d.localDeps actor, [])) :: st.predicted.filter (fun p => p.1 != r) }, ["ok"])
+    | _, _, _ => (st, ["bad-input"])
   | ["crdt.rollback", r] =>
     match st.txs.find? (fun p => p.1 == r) with
     | none => (st, ["0"])
